@@ -1,6 +1,6 @@
 (* C18 property theorems: statements only; every proof is [exact lemma]. *)
-From Gv Require Import lib.Bytes C18.Model C18.Spec C18.ProofsInv C18.ProofsKey C18.ProofsDrain C18.ProofsIso C18.Proofs
-  gen.Anchors_C18.
+From Gv Require Import lib.Bytes C18.Model C18.Spec C18.ProofsInv C18.ProofsKey C18.ProofsDrain C18.ProofsIso
+  C18.ProofsRouting C18.ProofsIsoPartial C18.Proofs gen.Anchors_C18.
 From Coq Require Import List NArith Arith Bool.
 Import ListNotations.
 
@@ -10,6 +10,15 @@ Theorem c18_anchors :
   /\ anchor_removeconn_by_key = true /\ anchor_close_outside_lock = true.
 Proof. exact anchors_ok. Qed.
 Print Assumptions c18_anchors.
+
+(* routing: on EVERY accepted action list the log passes the scanner of Spec.v: every upstream
+   frame (c, w) is delivered to exactly the subscription that registered w on c (it MUST be while that
+   subscription is live and uncancelled, it MAY be after its cancel), in upstream order, to nobody
+   else, nothing is delivered that was not sent, a wire id is never reused, and a terminal frame
+   unregisters only (c, w).  Non-vacuity: Proofs.ex_routing. *)
+Theorem c18_routing : forall idl tr s log, run (init idl) tr = Some (s, log) -> routing_b log = true.
+Proof. exact routing_proof. Qed.
+Print Assumptions c18_routing.
 
 (* complete / error for (c, w) removes exactly the entry (c, w): every other table, every other
    entry of c and every subscriber's program point are untouched, nobody is failed *)
@@ -40,6 +49,16 @@ Theorem c18_conns_drain : forall idl s log, reach idl s log -> quiescent s ->
     /\ forall w i, In (w, i) (c_subs x) -> pc s i = SActive c w /\ ctxc s i = false.
 Proof. exact conns_drain_proof. Qed.
 Print Assumptions c18_conns_drain.
+
+(* cancel_isolated with the three refuting windows excluded explicitly ([safe]): no dial aborted by the
+   dialler's ctx, no frame write killed by its ctx, closeConn-after-empty only while the table is
+   still empty and nobody is between obtaining the connection and having subscribed on it.  Then
+   every failure a subscriber observes is its own ctx or an upstream fault.
+   Non-vacuity: ProofsIsoPartial.partial_nonvacuous. *)
+Theorem c18_cancel_isolated_partial : forall idl tr s log,
+  run (init idl) tr = Some (s, log) -> safe_run (init idl) tr -> isolated_log log.
+Proof. exact cancel_isolated_partial_proof. Qed.
+Print Assumptions c18_cancel_isolated_partial.
 
 (* cancel_isolated is FALSE of the faithful model: three independent witnesses *)
 Theorem c18_cancel_isolated_refuted_dialler_ctx :
